@@ -180,9 +180,49 @@ def residue(e):
   return [type(x).__name__ for x in s if not isinstance(x, records.Record)]
 
 
+def enc_snapshot(e):
+  """Deep, immutable copy of what every stored cell ENCODES to right now (error cells with their details): one string
+  per cell, built from the objects held in the columns -- never references to them.  fetch_table hands out the live
+  objects, so a call that mutates a stored RaisedException in place is invisible to any comparison of its replies."""
+  import objtypes
+  out = {}
+  for t in sorted(e.tables):
+    tb = e.tables[t]
+    rows = list(tb.row_ids)
+    cols = {}
+    for cid in sorted(tb.all_columns):
+      col = tb.all_columns[cid]
+      if col.is_private() or cid.startswith('#'):
+        continue
+      cols[cid] = [json.dumps(objtypes.encode_object(col.raw_get(r)), sort_keys=True, default=repr) for r in rows]
+    out[t] = {'ids': rows, 'cols': cols}
+  return out
+
+
+def enc_diff(a, b, limit=3):
+  out = []
+  for t in sorted(set(a) | set(b)):
+    if t not in a or t not in b or a[t]['ids'] != b[t]['ids']:
+      out.append('%s: rows differ' % t)
+      continue
+    for c in sorted(set(a[t]['cols']) | set(b[t]['cols'])):
+      va, vb = a[t]['cols'].get(c), b[t]['cols'].get(c)
+      if va != vb:
+        for r, x, y in zip(a[t]['ids'], va or [], vb or []):
+          if x != y:
+            out.append('%s.%s[%s] encoded %s -> %s' % (t, c, r, x[:160], y[:160]))
+            break
+        else:
+          out.append('%s.%s: column set differs' % (t, c))
+      if len(out) >= limit:
+        return out
+  return out
+
+
 def check_call(e, call, stats=None, hooks=None):
   """Performs one read-only call under the recorder; returns (kind, what) if the document is not as before."""
   before = G.snapshot(e)
+  enc_before = enc_snapshot(e)
   bs = G.engine_schema(e)
   bl = lens(e)
   dm = dirty_map(e)
@@ -212,6 +252,13 @@ def check_call(e, call, stats=None, hooks=None):
   if after != before:
     return ('readonly-call-changed-tables',
             '%s changed the tables: %s' % (call[0], '; '.join(G.diff_snapshots(before, after)[:3])), info)
+  enc_after = enc_snapshot(e)
+  if enc_after != enc_before:
+    # same replies, different stored objects: the call changed an object held in a column IN PLACE (e.g. the details
+    # of a stored RaisedException): the cell now encodes -- is sent to the client and saved -- differently
+    return ('readonly-call-mutates-stored-cell-object',
+            '%s changed what stored cells encode to, with no action emitted: %s' % (
+              call[0], '; '.join(enc_diff(enc_before, enc_after))), info)
   if G.engine_schema(e) != bs:
     return ('readonly-call-changed-schema', '%s changed engine.schema' % call[0], info)
   if lens(e) != bl:
@@ -356,10 +403,78 @@ def run_history(ctx, seed_rng, stats, on_case):
   return found
 
 
+def error_state_logs():
+  """Documents whose cells hold RaisedException objects, as lists of bundles (deterministic, replayable):
+  a trigger formula that still fails, a trigger formula whose error is LEFT OVER (its cause was fixed without
+  re-triggering it: get_formula_error then reports the stored error object), a data cell set to an encoded error,
+  and an ordinary formula column that raises."""
+  base = [[['AddTable', 'Math', [
+    {'id': 'A', 'type': 'Numeric', 'isFormula': False}, {'id': 'B', 'type': 'Numeric', 'isFormula': False},
+    {'id': 'C', 'type': 'Numeric', 'isFormula': False, 'formula': '1/$A + 1/$B'},
+    {'id': 'D', 'type': 'Any', 'isFormula': False},
+    {'id': 'F', 'type': 'Numeric', 'isFormula': True, 'formula': '1/$B'}]]]]
+  ld = c04.LoggedDoc(base)
+  cols = ld.e.fetch_table('_grist_Tables_column')
+  tabs = ld.e.fetch_table('_grist_Tables')
+  math_ref = tabs.row_ids[tabs.columns['tableId'].index('Math')]
+  def ref(cid):
+    return [r for r, c, p in zip(cols.row_ids, cols.columns['colId'], cols.columns['parentId'])
+            if c == cid and p == math_ref][0]
+  trig = base + [[['UpdateRecord', '_grist_Tables_column', ref('C'), {'recalcDeps': ['L', ref('A')]}]]]
+  failing = trig + [[['AddRecord', 'Math', None, {'A': 1, 'B': 0}]], [['AddRecord', 'Math', None, {'A': 0, 'B': 2}]]]
+  leftover = failing + [[['UpdateRecord', 'Math', 1, {'B': 1}]]]
+  stored = leftover + [[['UpdateRecord', 'Math', 2, {'D': ['E', 'ValueError', 'boom', 'a traceback text']}]],
+                       [['UpdateRecord', 'Math', 1, {'D': ['E', 'KeyError']}]]]
+  return [('trigger-formula-error', failing), ('left-over-trigger-formula-error', leftover),
+          ('encoded-error-in-data-cell', stored)]
+
+
+def error_states(ctx, stats, seen):
+  """The whole battery on the documents of error_state_logs(), then a follow-up bundle against a control engine."""
+  import random
+  then = [['Calculate'], ['UpdateRecord', 'Math', 1, {'A': 2}]]
+  for name, log in error_state_logs():
+    ld = c04.LoggedDoc(log)
+    if ld.e.recompute_map:
+      raise core.TieBroken('directed error state %s is not clean after its log' % name)
+    held = sum(1 for t in G.user_tables(ld.e) for c in ld.e.tables[t].all_columns.values() if not c.is_private()
+               for r in ld.e.tables[t].row_ids if type(c.raw_get(r)).__name__ == 'RaisedException')
+    if not held:
+      raise core.TieBroken('directed error state %s holds no RaisedException cell' % name)
+    stats['error-state-cells-holding-errors:' + name] = held
+    done = []
+    bad = None
+    for call in battery(ld.e, random.Random(ctx.seed), limit_rows=4):
+      key = ('error-state', name, json.dumps(list(call), default=repr))
+      ctx.count(key, nontrivial=not call[0].startswith('fetch'), kind='error-state:' + call[0])
+      stats['error-state-calls'] += 1
+      done.append(list(call))
+      try:
+        kind, what, info = check_call(ld.e, call)
+      except KeyError:
+        continue
+      if kind:
+        bad = (kind, what, [list(call)])
+        break
+    if bad is None:
+      r = replay_kind({'log': log, 'calls': done, 'then': then})
+      if r is not None:
+        bad = (r[0], r[1], done)
+    if bad is not None:
+      kind, what, calls = bad
+      w = {'log': copy.deepcopy(log), 'calls': calls, 'then': then}
+      if replay_kind(w) is None:
+        w['calls'] = done            # it needed the earlier calls as well
+      seen[kind] += 1
+      if seen[kind] <= 2:
+        ctx.violation(kind, 'on the document "%s": %s' % (name, what), w)
+
+
 def search(ctx):
   stats = collections.Counter()
   seen = collections.Counter()
   c04.regression_corpus(ctx, ID, replay_kind)
+  error_states(ctx, stats, seen)
   import random
   for h in range(ctx.n(2, 60)):
     rng = random.Random(ctx.rng.getrandbits(48))
